@@ -477,3 +477,31 @@ def gen_rdm_instance(iid, rng, kind, norb, nu, nd):
           "walkers": [], "want_e": False, "want_fb": False, "want_rdm": True}
     return {"id": iid, "kind": kind, "norb": norb, "nu": nu, "nd": nd, "trial": tr, "json": js,
             "ham": gen_ham(rng, norb, 1, False), "walkers": [], "restricted": False, "spin_dep": False}
+
+
+# ----------------------------------------------------------------------------- Hamiltonian-level oracle
+def ham_oracle(chk: Check, reqs, name="ham"):
+    """reqs: list of dicts for spec/HamOracle.tla; returns {id: answer}"""
+    wd = chk.scratch(f"ham-{name}")
+    out = wd / "out"
+    out.mkdir(exist_ok=True)
+    (wd / "req.ndjson").write_text("".join(json.dumps(r) + "\n" for r in reqs))
+    chk.tlc("HamOracle", "SPECIFICATION Spec\nCHECK_DEADLOCK FALSE\n",
+            env={"HAM_REQ": str(wd / "req.ndjson"), "HAM_OUT": str(out)}, name=f"HamOracle-{name}", timeout=3000)
+    res = {}
+    for r in reqs:
+        p = out / f"{r['id']}.json"
+        if not p.exists():
+            raise MachineryError(f"HamOracle produced no answer for request {r['id']}")
+        res[r["id"]] = json.loads(p.read_text().splitlines()[0])
+    return res
+
+
+def hmatrix(chk: Check, ham, norb, nu, nd, rid=1, name="hmat"):
+    """exact matrix of H in the (nu, nd) sector: returns (configs as (alpha tuple, beta tuple) 0-based, H as float array)"""
+    req = {"id": rid, "kind": "hmat", "norb": norb, "nup": nu, "ndn": nd, "h1u": enc_i(ham["h1u"]), "h1d": enc_i(ham["h1d"]),
+           "chol": [enc_i(c) for c in ham["chol"]]}
+    a = ham_oracle(chk, [req], name)[rid]
+    cfgs = [(tuple(p - 1 for p in c if p <= norb), tuple(p - 1 - norb for p in c if p > norb)) for c in a["configs"]]
+    H = np.array(a["rows"], dtype=float) / 2.0 + ham["h0"] * np.eye(len(cfgs))
+    return cfgs, H
